@@ -223,6 +223,7 @@ static inline void worker_loop(Harness &h, Shared *sh, int wid, uint64_t seed, i
   RunCtx ctx; ctx.attach(slot); g_slot = slot; g_ctx = &ctx;
   h.worker_init();
   FILE *ff = fopen((outdir + fmt("/fail.%d", wid)).c_str(), "a");
+  FILE *tf = getenv("VERIF_DUMP_HASHES") ? fopen((outdir + fmt("/trace.%d", wid)).c_str(), "a") : nullptr;  // selftest: (index, trace hash) per run
   FILE *hf = fopen((outdir + fmt("/hash.%d", wid)).c_str(), "ab");
   std::vector<uint64_t> hb;
   for (;;) {
@@ -236,6 +237,7 @@ static inline void worker_loop(Harness &h, Shared *sh, int wid, uint64_t seed, i
     Outcome o = h.execute(plan, ctx);
     slot->inflight = -1;
     slot->done++;
+    if (tf) { fprintf(tf, "%lld %016llx %s\n", (long long) ix, (unsigned long long) o.trace_hash, o.violation ? o.cls.c_str() : "ok"); fflush(tf); }
     __sync_fetch_and_add(&sh->ticks, (int64_t) o.ticks);
     if (o.nontrivial) {
       __sync_fetch_and_add(&sh->nontrivial, 1);
